@@ -680,8 +680,11 @@ func runPath(P *Program, cfg *RunConfig, s *Solver, harness string, prefix []Dec
 	}
 	// crashes and deadlocks are violations of the implicit "no panic" assertion
 	if !p.twin {
+		if res.Outcome.Kind == "budget" && cfg.HangIsViolation {
+			res.Outcome.Kind = "hang"
+		}
 		switch res.Outcome.Kind {
-		case "panic", "deadlock":
+		case "panic", "deadlock", "hang":
 			func() {
 				defer func() { recover() }()
 				in.aborting = false
